@@ -5,6 +5,7 @@ import (
 	"fmt"
 	"sort"
 	"strings"
+	"unicode"
 	"unicode/utf8"
 
 	"go.lsp.dev/protocol"
@@ -48,7 +49,7 @@ func (s *Server) Hover(ctx context.Context, params *protocol.HoverParams) (*prot
 	journal, _ := parser.Parse(doc)
 	mapper := newColumnMapper(doc)
 
-	element := findElementAtPosition(journal, mapper.runePosition(params.Position))
+	element := findElementAtPosition(journal, mapper, mapper.runePosition(params.Position))
 	if element == nil || element.context == HoverUnknown {
 		return nil, nil
 	}
@@ -99,7 +100,9 @@ func positionInRange(pos protocol.Position, rng ast.Range) bool {
 	return true
 }
 
-func findElementAtPosition(journal *ast.Journal, pos protocol.Position) *hoverElement {
+// findElementAtPosition finds what the cursor is on. mapper belongs to the text the journal
+// was parsed from; the character of pos counts runes (see columnMapper.runePosition).
+func findElementAtPosition(journal *ast.Journal, mapper *columnMapper, pos protocol.Position) *hoverElement {
 	for i := range journal.Transactions {
 		tx := &journal.Transactions[i]
 
@@ -114,7 +117,7 @@ func findElementAtPosition(journal *ast.Journal, pos protocol.Position) *hoverEl
 
 		payee := getPayeeOrDescription(tx)
 		if payee != "" {
-			payeeRange := estimatePayeeRange(tx, payee)
+			payeeRange := mapper.payeeRange(tx, payee)
 			if positionInRange(pos, payeeRange) {
 				return &hoverElement{
 					context:     HoverPayee,
@@ -178,6 +181,86 @@ func getPayeeOrDescription(tx *ast.Transaction) string {
 	return tx.Description
 }
 
+// payeeRange is the range of the payee of tx in the text the mapper was made from: of
+// tx.Payee when the description is written `payee | note`, of the whole description
+// otherwise. The syntax tree has no position for the description, so it is looked up on
+// the transaction's header line; without that line the range is estimated from the date.
+func (m *columnMapper) payeeRange(tx *ast.Transaction, payee string) ast.Range {
+	line := tx.Date.Range.Start.Line
+	if i := line - 1; i >= 0 && i < len(m.lines) {
+		if col, ok := descriptionColumn(m.lines[i], tx.Date.Range.End.Column); ok {
+			return ast.Range{
+				Start: ast.Position{Line: line, Column: col},
+				End:   ast.Position{Line: line, Column: col + utf8.RuneCountInString(payee)},
+			}
+		}
+	}
+	return estimatePayeeRange(tx, payee)
+}
+
+// descriptionColumn returns the column (counted in runes from 1, like the columns of the
+// syntax tree) at which the description starts on the header line of a transaction; dateEnd
+// is the column just past the date. The line is read the way the parser reads a header: a
+// secondary date (`=DATE`), a status mark and a code in parentheses may stand between the
+// date and the description, each after any number of blanks or tabs. The description is a
+// trimmed token, so the white space in front of it is not part of it.
+func descriptionColumn(line string, dateEnd int) (int, bool) {
+	runes := []rune(line)
+	i := dateEnd - 1
+	if i < 0 || i > len(runes) {
+		return 0, false
+	}
+
+	skipBlanks := func() {
+		for i < len(runes) && (runes[i] == ' ' || runes[i] == '\t') {
+			i++
+		}
+	}
+
+	skipBlanks()
+	if i < len(runes) && runes[i] == '=' {
+		i++
+		skipBlanks()
+		if i < len(runes) && '0' <= runes[i] && runes[i] <= '9' {
+			for i < len(runes) && isDateRune(runes[i]) {
+				i++
+			}
+		}
+	}
+
+	skipBlanks()
+	if i < len(runes) && (runes[i] == '*' || runes[i] == '!') {
+		i++
+	}
+
+	skipBlanks()
+	if i < len(runes) && runes[i] == '(' {
+		for i < len(runes) && runes[i] != ')' {
+			i++
+		}
+		if i == len(runes) {
+			return 0, false
+		}
+		i++
+	}
+
+	for i < len(runes) && unicode.IsSpace(runes[i]) {
+		i++
+	}
+	if i == len(runes) {
+		return 0, false
+	}
+
+	return i + 1, true
+}
+
+// isDateRune reports whether r can be part of a date as the lexer scans it.
+func isDateRune(r rune) bool {
+	return ('0' <= r && r <= '9') || r == '-' || r == '/' || r == '.'
+}
+
+// estimatePayeeRange places the payee one blank after the date, or after the status mark
+// that follows the date: the best guess when the text of the header is not at hand.
 func estimatePayeeRange(tx *ast.Transaction, payee string) ast.Range {
 	startCol := tx.Date.Range.End.Column + 1
 	if tx.Status != ast.StatusNone {
